@@ -3,13 +3,16 @@ use crate::store::*;
 
 macro_rules! store_harness {
     ($name:ident, $k:literal, $unwind:literal) => {
+        store_harness!($name, $k, $unwind, []);
+    };
+    ($name:ident, $k:literal, $unwind:literal, [$(($pk:literal, $px:literal, $py:literal)),*]) => {
         #[cfg_attr(kani, kani::proof)]
         #[cfg_attr(kani, kani::stub(alloc::fmt::format, crate::util::fmt_stub))]
         #[cfg_attr(kani, kani::stub(std::backtrace::Backtrace::capture, crate::util::bt_stub))]
         #[cfg_attr(kani, kani::stub(<anyhow::Error as std::ops::Drop>::drop, crate::util::noop_err_drop))]
         #[cfg_attr(kani, kani::unwind($unwind))]
         pub fn $name() {
-            history::<$k>();
+            history_from::<$k>(&[$(($pk, $px, $py)),*]);
         }
     };
 }
@@ -17,3 +20,10 @@ macro_rules! store_harness {
 store_harness!(c12_q_history_k1, 1, 5);
 store_harness!(c12_q_history_k2, 2, 6);
 store_harness!(c12_t_history_k3, 3, 7);
+// from the populated store {a, b, a->b}: one and two arbitrary operations
+store_harness!(c12_q_from_ab_k1, 1, 6, [(0, 0, 0), (0, 1, 0), (2, 0, 1)]);
+store_harness!(c12_q_from_ab_k2, 2, 7, [(0, 0, 0), (0, 1, 0), (2, 0, 1)]);
+// from {a, b, a->b, b->a, a->a}
+store_harness!(c12_t_from_full_k2, 2, 8, [(0, 0, 0), (0, 1, 0), (2, 0, 1), (2, 1, 0), (2, 0, 0)]);
+// after a removal: {b} with a tombstone for a, then two operations
+store_harness!(c12_t_from_tomb_k2, 2, 7, [(0, 0, 0), (0, 1, 0), (2, 0, 1), (1, 0, 0)]);
